@@ -427,6 +427,21 @@ func run(c *core.Ctx) error {
 		}
 		c.Eval(1)
 	}
+	// merge outputs the persister never recorded drop out of the root (everything deleted)
+	for k := 0; k < c.Pick(2, 5); k++ {
+		dres, err := sx.DirectedDroppedMergeOutput(c.TempDir("c12w"), c.Seed+int64(k))
+		if err != nil {
+			return err
+		}
+		name := "directed-merge-output-dropped"
+		for _, r := range filesRecords(dres.Events) {
+			all = append(all, r)
+			owner = append(owner, name)
+			if m := r.(map[string]any); m["ev"] == "Sample" {
+				c.Eval(1)
+			}
+		}
+	}
 	// the failed-merge schedule of ScorchDisk's MFail action
 	for k := 0; k < c.Pick(2, 6); k++ {
 		fres, err := sx.DirectedFailedMerge(c.TempDir("c12f"), c.Seed+int64(k))
